@@ -61,7 +61,7 @@ Inductive step2_case (s : state2) : label2 -> state2 -> Prop :=
 | sc_drain : forall cap n, wch s = WBuf cap (S n) -> step2_case s LDrain (set_wch (WBuf cap n) 0 0 s)
 | sc_keyex : forall x, keyed s = false -> step2_case s (LKeyEx x) (keyex2 x s)
 | sc_badframe : forall clk f r, keyed s = true -> rx (base s) = RRead -> wire_in (base s) = f :: r ->
-    transport_ok f = false -> step2_case s (L1 (LStep ARx clk)) (warn2 (upd_base (set_in r) s))
+    transport_ok f = false -> step2_case s (L1 (LStep ARx clk)) (warn2 (bump_failed (upd_base (set_in r) s)))
 | sc_dispatch : forall clk f ks, keyed s = true -> rx (base s) = RDispatch f ks ->
     step2_case s (L1 (LStep ARx clk)) (dispatch2 f ks s)
 | sc_notify0 : forall clk ks, keyed s = true -> rx (base s) = RNotify [] ks ->
@@ -108,6 +108,18 @@ Proof.
       apply lift_inv in H. destruct H as (b' & H & E). subst. constructor; simpl; auto.
   - destruct (wch s) as [|cap [|n]] eqn:W; try discriminate. inversion H. subst. eapply sc_drain; eauto.
   - destruct (keyed s) eqn:K; [discriminate|]. inversion H. subst. constructor; auto.
+Qed.
+
+(* the receive-loop steps that step2 replaces never run through [step] *)
+Definition old_ok (b : state) (l : label) : Prop :=
+  match l with
+  | LStep ARx _ => match rx b with RDispatch _ _ | RNotify _ _ | RReconnect => False | _ => True end
+  | _ => True
+  end.
+
+Lemma lifted_old_ok : forall s l, lifted_ok s l -> old_ok (base s) l.
+Proof.
+  intros s l H. destruct l as [t h|[t|] clk|f|]; simpl in *; auto. destruct (rx (base s)); auto.
 Qed.
 
 (* ---- histories ------------------------------------------------------------------------------ *)
